@@ -88,3 +88,22 @@ Proof.
   pose proof (never_woken s o) as H. destruct (astep s o) as [s1 x]. simpl in H.
   specialize (IH s1). destruct (arun s1 r) as [s2 xs]. simpl in *. congruence.
 Qed.
+
+(** * P-tie: [MRBFuture::poll] as the source runs it (gen/PollGen.v: the body executed symbolically on every run - one attempt; if it
+      fails, registration of the polling task's waker, then a second attempt; [Pending] only after that) is the Model's [poll]. *)
+Require Import MRB.Model.PollShape MRB.gen.PollGen.
+
+Theorem poll_is_source_shape k o s : poll_by_shape PollGen.poll_shape k o s = Some (poll k o s).
+Proof.
+  unfold PollGen.poll_shape, poll. cbn [poll_by_shape run_entry run_events].
+  destruct (step (base s) o) as [m1 [x1 e1]] eqn:E1. cbn [app].
+  destruct (refused x1) eqn:R1; cbn [negb Bool.eqb].
+  - (* first attempt fails *)
+    change (base (register k (set_base m1 s))) with m1.
+    destruct (step m1 o) as [m2 [x2 e2]] eqn:E2.
+    destruct (refused x2) eqn:R2; cbn [negb Bool.eqb]; reflexivity.
+  - reflexivity.
+Qed.
+
+Theorem poll_source_closed : PollGen.poll_clean = true.
+Proof. reflexivity. Qed.
